@@ -682,7 +682,12 @@ class Interp(object):
             f = band if opname == 'BitAnd' else bor
             return npm.elementwise(st, f, a, b, kind='bool')
         if opname == 'Mod' and (isinstance(a, (str, Opaque))):
-            return Opaque('str')
+            if isinstance(a, str) and isinstance(b, (str, int)) and not isinstance(b, bool):
+                try:
+                    return a % b
+                except Exception:
+                    pass
+            return Opaque('str', ('%', a, b))          # the template and what is formatted into it are kept
         if opname == 'Add' and (isinstance(a, (str, Opaque)) or isinstance(b, (str, Opaque))):
             if isinstance(a, str) and isinstance(b, str):
                 return a + b
